@@ -43,12 +43,15 @@ Proof.
 Qed.
 
 (* ------------------------------------------------------------ invariant between calls *)
+Definition idle (s : state) : Prop := forall p, memf p idle_nulls = true -> pt s p = None.
 Definition Inv (x : xstate) : Prop :=
-  sc (xs x) gsc = CSTART /\ sc (xs x) gsd = DSTART /\ xerr x = None.
+  sc (xs x) gsc = CSTART /\ sc (xs x) gsd = DSTART /\ xerr x = None /\ idle (xs x).
 
-Lemma R_refl a s : a_p a = [] -> sc s gsc = a_c a -> sc s gsd = a_d a -> R a s s.
+Lemma R_refl a s : a_p a = [] -> a_n a = idle_nulls -> idle s -> sc s gsc = a_c a -> sc s gsd = a_d a -> R a s s.
 Proof.
-  intros Hp Hc Hd. unfold R. rewrite Hp. repeat split; auto; discriminate.
+  intros Hp Hn Hi Hc Hd. unfold R. rewrite Hp, Hn.
+  split; [assumption|]. split; [assumption|]. split; [assumption|]. split; [assumption|].
+  split; [reflexivity|]. split; [discriminate | auto].
 Qed.
 
 Lemma exits_from_spec fx a k ex :
@@ -58,19 +61,25 @@ Proof.
   destruct (forallb at_start e) eqn:E; [|discriminate]. intro H. inversion H. subst. auto.
 Qed.
 
-Lemma at_start_spec a : at_start a = true -> a_c a = CSTART /\ a_d a = DSTART.
-Proof. unfold at_start. rewrite andb_true_iff, !Z.eqb_eq. tauto. Qed.
+Lemma at_start_spec a :
+  at_start a = true -> a_c a = CSTART /\ a_d a = DSTART /\ forall p, memf p idle_nulls = true -> memf p (a_n a) = true.
+Proof.
+  unfold at_start. rewrite !andb_true_iff, !Z.eqb_eq. intros [[H1 H2] H3]. split; [assumption|]. split; [assumption|].
+  intros p Hp. rewrite forallb_forall in H3. apply H3. apply memf_In. exact Hp.
+Qed.
 
 Lemma step_inv fx c x : ok_hist fx (c_kind c) = true -> Inv x -> Inv (step fx c x).
 Proof.
   unfold ok_hist. destruct (exits_from fx (a_hist fx) (c_kind c)) as [ex|] eqn:E; [|discriminate].
-  intros _ (Hc & Hd & He). destruct (exits_from_spec _ _ _ _ E) as [Ha Hs].
+  intros _ (Hc & Hd & He & Hi). destruct (exits_from_spec _ _ _ _ E) as [Ha Hs].
   unfold step. set (x0 := mkx (xs x) (xd x) [] (xerr x) 0%nat).
   assert (HX : RX (a_hist fx) x0 x0).
-  { apply mkRX; [|reflexivity|reflexivity]. apply R_refl; [reflexivity | exact Hc | exact Hd]. }
+  { apply mkRX; [|reflexivity|reflexivity]. apply R_refl; [reflexivity | reflexivity | exact Hi | exact Hc | exact Hd]. }
   destruct (run_prog_sound (env_of (c_args c)) _ _ _ _ _ Ha HX) as (E1 & _ & (b & Hb & (HRb & _))).
-  rewrite forallb_forall in Hs. destruct (at_start_spec _ (Hs _ Hb)) as [Bc Bd].
-  destruct HRb as (A & _ & C & _). unfold Inv. rewrite A, C, Bc, Bd, E1. cbn. auto.
+  rewrite forallb_forall in Hs. destruct (at_start_spec _ (Hs _ Hb)) as (Bc & Bd & Bn).
+  destruct HRb as (A & _ & C & _ & _ & _ & G). unfold Inv. rewrite A, C, Bc, Bd, E1. cbn.
+  split; [reflexivity|]. split; [reflexivity|]. split; [exact He|].
+  intros p Hp. apply G. apply Bn. exact Hp.
 Qed.
 
 Lemma run_inv fx h : forall x, Forall (fun c => ok_hist fx (c_kind c) = true) h -> Inv x -> Inv (run fx h x).
@@ -80,19 +89,19 @@ Proof.
 Qed.
 
 Lemma init_inv ic id : Inv (init_x ic id).
-Proof. unfold Inv. cbn. auto. Qed.
+Proof. unfold Inv, idle. cbn. auto. Qed.
 
 (* ------------------------------------------------------------ fresh instance with the same settings *)
 Lemma gs_not_param : memf gsc param_fields = false /\ memf gsd param_fields = false.
 Proof. vm_compute. auto. Qed.
 
-Lemma R_fresh s : sc s gsc = CSTART -> sc s gsd = DSTART -> R a_probe s (fresh_like s).
+Lemma R_fresh s : sc s gsc = CSTART -> sc s gsd = DSTART -> idle s -> R a_probe s (fresh_like s).
 Proof.
-  intros Hc Hd. destruct gs_not_param as [G1 G2]. unfold R, a_probe, fresh_like. cbn [a_c a_d a_s a_p sc pt ep].
-  rewrite G1, G2. repeat split; auto.
-  - intros f Hf. rewrite Hf. reflexivity.
-  - discriminate.
-  - discriminate.
+  intros Hc Hd Hi. destruct gs_not_param as [G1 G2]. unfold R, a_probe, fresh_like. cbn [a_c a_d a_s a_p a_n sc pt ep].
+  rewrite G1, G2.
+  split; [assumption|]. split; [reflexivity|]. split; [assumption|]. split; [reflexivity|].
+  split; [intros f Hf; rewrite Hf; reflexivity|]. split; [discriminate|].
+  intros p Hp. split; [apply Hi; exact Hp | reflexivity].
 Qed.
 
 Lemma inter_all_In b l f : In b l -> memf f (inter_all l) = true -> memf f (a_s b) = true.
@@ -122,9 +131,9 @@ Proof.
     destruct (run_prog_sound (env_of (c_args c)) _ _ _ _ _ Ha HX) as (F1 & F2 & (b & Hb & (HRb & Hob & _))).
     set (z1 := run_prog (env_of (c_args c)) (prog_of fx (c_kind c)) y1) in *.
     set (z2 := run_prog (env_of (c_args c)) (prog_of fx (c_kind c)) y2) in *.
-    rewrite forallb_forall in Hs. destruct (at_start_spec _ (Hs _ Hb)) as [Bc Bd].
+    rewrite forallb_forall in Hs. destruct (at_start_spec _ (Hs _ Hb)) as (Bc & Bd & Bn).
     assert (HRn : R (next_entry ex) (xs z1) (xs z2)).
-    { eapply R_weaken; [| | | | exact HRb]; cbn [next_entry a_c a_d a_s a_p]; auto.
+    { eapply R_weaken; [| | | | | exact HRb]; cbn [next_entry a_c a_d a_s a_p a_n]; auto.
       - intros f Hf. eapply inter_all_In; eassumption.
       - discriminate. }
     destruct (IH (next_entry ex) z1 z2 Hok eq_refl eq_refl eq_refl HRn) as (G1 & G2 & G3).
@@ -143,7 +152,7 @@ Theorem history_independence_gen fx (h : list call) (cs : list call) ic id :
   snd (probe fx cs (xs x) (xd x)) = None /\
   snd (probe fx cs (fresh_like (xs x)) dest0) = None.
 Proof.
-  intros Hh Hp x. destruct (run_inv fx h _ Hh (init_inv ic id)) as (Hc & Hd & He). fold x in Hc, Hd, He.
+  intros Hh Hp x. destruct (run_inv fx h _ Hh (init_inv ic id)) as (Hc & Hd & He & Hi). fold x in Hc, Hd, He, Hi.
   split; [exact He|]. unfold probe, ok_probe in *.
   apply (probe_seq_sound fx cs a_probe); auto.
   apply R_fresh; assumption.
